@@ -10,7 +10,9 @@ def config(rng, idle=False, refresh=None):
                 minb=rng.choice([50, 100]), maxb=rng.choice([200, 800, 3200]), limit_ms=rng.choice([1, 1, 5]),
                 prune_ms=rng.choice([0, 0, 700]), idle=idle, refresh_ms=refresh,
                 # objects carry a reconciler.StatusSet (several reconcilers per object) instead of a single Status
-                statusset=rng.random() < 0.4)
+                statusset=rng.random() < 0.4,
+                # ... into which that many other reconcilers have written before ours sees a new object
+                setnames=rng.choice([0, 0, 1, 2, 3, 3]))
 
 
 def finish(ops, cfg, outstanding):
@@ -104,7 +106,7 @@ def gen_inflight(rng):
         if rng.random() < 0.4 and outstanding < 4:
             ops.append(dict(op="fail", k=k, n=1, on="update"))
             outstanding += 1
-        ops.append(dict(op="user", kind=rng.choice(["upsert", "status2"]), k=k))
+        ops.append(dict(op="user", kind=rng.choice(["upsert", "status2", "reinsert"]), k=k))
         ops.append(dict(op="sleep", ms=rng.choice([1, 5, 50, cfg["maxb"] + 20])))
         if rng.random() < 0.3:
             ops.append(dict(op="wait", back=rng.randint(0, 2), q=False))
@@ -215,7 +217,34 @@ def gen_refresh(rng):
     return finish(ops, cfg, outstanding)
 
 
+def gen_sharedset(rng):
+    """C15 with several reconcilers per object (reconciler.StatusSet): another reconciler's status write lands
+    while the FIRST Update of a new object is in flight, i.e. while our reconciler is not in the set yet and its
+    (stale) result adds a name to a set whose memory older and newer versions may share."""
+    cfg = config(rng)
+    cfg["statusset"] = True
+    cfg["setnames"] = rng.choice([0, 1, 2, 3, 3, 3])
+    ops = [cfg]
+    K = rng.randint(1, 3)
+    outstanding = 0
+    for _ in range(rng.randint(1, 5)):
+        k = rng.randint(1, K)
+        for _ in range(rng.randint(1, 2)):
+            ops.append(dict(op="inject", k=k, on="update", nth=rng.randint(1, 2),
+                            do=rng.choice(["status2", "status2", "status2", "upsert", "delete", "reinsert"])))
+        if rng.random() < 0.3 and outstanding < 4:
+            ops.append(dict(op="fail", k=k, n=1, on="update"))
+            outstanding += 1
+        ops.append(dict(op="user", kind=rng.choice(["reinsert", "reinsert", "upsert"]), k=k))
+        if rng.random() < 0.5:
+            ops.append(dict(op="user", kind="status2", k=k))
+        ops.append(dict(op="sleep", ms=rng.choice([1, 5, 50, cfg["maxb"] + 20])))
+        if rng.random() < 0.3:
+            ops.append(dict(op="wait", back=rng.randint(0, 2), q=False))
+    return finish(ops, cfg, outstanding)
+
+
 def generate(kind, n, seed):
     rng = random.Random(seed)
-    fn = {"refresh": gen_refresh, "lowwatermark": gen_lowwatermark, "general": gen_general, "backoff": gen_backoff, "inflight": gen_inflight, "retrywindow": gen_retrywindow}[kind]
+    fn = {"sharedset": gen_sharedset, "refresh": gen_refresh, "lowwatermark": gen_lowwatermark, "general": gen_general, "backoff": gen_backoff, "inflight": gen_inflight, "retrywindow": gen_retrywindow}[kind]
     return [fn(rng) for _ in range(n)]
